@@ -387,6 +387,19 @@ func runC13(c *Ctx) (int, error) {
 				"rres": rres, "gres": gres, "msg": rmsg + gmsg, "crash": crash, "text": text})
 		}
 	}
+	// the analysis as coded (Validate.tla): every order of Go's map iteration, every usage graph on 3 (4) structs
+	vn := 3
+	vmc := &tlc.Run{SpecDir: filepath.Join(Root, "spec"), Scratch: filepath.Join(c.Work, "validate"), Module: "Validate", Workers: 8, Timeout: 20 * time.Minute,
+		Cfg: fmt.Sprintf("CONSTANTS\n  N = %d\nSPECIFICATION Spec\nINVARIANTS Exact Sound\nPROPERTIES Terminates\nCHECK_DEADLOCK FALSE\n", vn)}
+	vr, err := vmc.Exec()
+	if err != nil {
+		return 2, infra("Validate.tla: %v", err)
+	}
+	if vr.Violated != "" {
+		return 2, infra("Validate.tla violates %s (spec bug)", vr.Violated)
+	}
+	gr.Distinct += vr.Distinct
+	gr.Generated += vr.Generated
 	devs := c.OpenDevs("C13")
 	vs, total, st, tr, err := judgeParse(c, "Trace_Parse", "C13", devs, cases, events)
 	if err != nil {
@@ -400,7 +413,8 @@ func runC13(c *Ctx) (int, error) {
 	cov := Coverage{"states": gr.Distinct + st, "transitions": gr.Generated + tr, "traces_validated_against_impl": total["ok"] + total["known"],
 		"events_total": len(events), "evaluations": len(events), "distinct_nontrivial": nontriv,
 		"rule":    "schemas = a valid base schema (enum, typed enum, struct, message, union with struct and message branches, containers, opcodes, consts) x ONE injected error per class of the property at every applicable site (51 injections: undefined types at 9 sites incl. union branches and nested containers; duplicate definition/const/field/option names; duplicate enum values; duplicate message/union indices; index zero; duplicate opcodes; enum values out of range; unassignable const literals; primitive names), each checked by TLC to violate exactly that rule of the reference validator; recursion: EVERY directed graph on 1-3 structs (2+16+512) x edge kind {direct, via message, via union, via array, via map}; non-trivial = cases the reference validator rejects",
-		"samples": samples, "schemas": len(cases), "open_deviations": devs, "exhaustive": false, "recursion_graphs_exhaustive_up_to_nodes": 3}
+		"samples": samples, "schemas": len(cases), "open_deviations": devs, "exhaustive": false, "recursion_graphs_exhaustive_up_to_nodes": 3,
+		"validate_fixpoint_model_states": vr.Distinct, "validate_fixpoint_properties": []string{"Exact (verdict = declarative self-containment, for every map iteration order)", "Sound", "Terminates (WF)"}}
 	return c.Finish("model_checking", cov, []string{"Gen_Inject!Violated is the reading of the rule list in the property; struct edges through arrays and maps are treated as unspecified (the property says 'necessarily contains itself')"}), nil
 }
 
